@@ -67,6 +67,18 @@ func runC15(r *Report) {
 	// acquirers: tryLock, and private wrappers that return true exactly when they return with the flag held
 	// (func (t *base) acquire() bool { if !t.tryLock() { return false }; if !t.ready() { t.unlock(); return false }; return true })
 	acquirers := map[*ssa.Function]bool{tryLock: true}
+	acquirersErr := map[*ssa.Function]bool{}
+	heldGuard := func(g Guard) bool {
+		if gc, okc := g.Cond.(*ssa.Call); okc && acquirers[gc.Call.StaticCallee()] && g.Pol {
+			return true
+		}
+		if x, isNil, okn := nilFact(g); okn && isNil {
+			if gc, okc := x.(*ssa.Call); okc && acquirersErr[gc.Call.StaticCallee()] {
+				return true
+			}
+		}
+		return false
+	}
 	for i := 0; i < len(calls); i++ {
 		cs := calls[i]
 		c, ok := cs.(*ssa.Call)
@@ -76,7 +88,67 @@ func runC15(r *Report) {
 		f := cs.Parent()
 		r.Fn(f)
 		key := fmt.Sprintf("%s/tryLock-then-unlock", fname(f))
-		exits := unreportedExits(mustCfg{c, isRelease, []excuse{{c, false}}})
+		excuses := []excuse{{c, false}}
+		if acquirersErr[c.Call.StaticCallee()] {
+			// err := t.acquire(); if err != nil { return err }: the edge on which the error is not nil took nothing
+			excuses = nil
+			for _, ref := range *c.Referrers() {
+				if bo, isB := ref.(*ssa.BinOp); isB && (bo.Op == token.NEQ || bo.Op == token.EQL) && (isNilConst(bo.Y) || isNilConst(bo.X)) && excuses == nil {
+					excuses = []excuse{{bo, bo.Op == token.NEQ}}
+				}
+			}
+		}
+		exits := unreportedExits(mustCfg{c, isRelease, excuses})
+		if len(exits) > 0 && relPkg(f) == "tracker" && f.Parent() == nil && f.Signature.Results().Len() == 1 && isErrorType(f.Signature.Results().At(0).Type()) {
+			// func (t *base) acquire() error: nil exactly when it returns with the flag held
+			if obj, isF := f.Object().(*types.Func); isF && !obj.Exported() {
+				allNil := true
+				for _, e := range exits {
+					ret, isRet := e.(*ssa.Return)
+					if !isRet || !isNilConst(ret.Results[0]) {
+						allNil = false
+					}
+				}
+				if allNil {
+					for _, ret := range returnsOf(f) {
+						rv := ret.Results[0]
+						if !isNilConst(rv) {
+							// a failure: a package-level error value or a fresh error
+							if ld, isLd := rv.(*ssa.UnOp); isLd {
+								if _, isG := ld.X.(*ssa.Global); isG {
+									continue
+								}
+							}
+							if cc, isC := rv.(*ssa.Call); isC && (isStdCall(cc, "errors", "", "New") || isStdCall(cc, "fmt", "", "Errorf")) {
+								continue
+							}
+							allNil = false
+							continue
+						}
+						held := false
+						for _, g := range guardsOf(ret.Block()) {
+							g = g.norm()
+							if gc, okc := g.Cond.(*ssa.Call); okc && acquirers[gc.Call.StaticCallee()] && g.Pol {
+								held = true
+							}
+						}
+						if !held {
+							allNil = false
+						}
+					}
+				}
+				if allNil && !acquirersErr[f] {
+					acquirersErr[f] = true
+					r.Ok("R1", key, c.Pos(), "the wrapper returns a nil error exactly when it returns with the busy flag held; its callers are checked in its place")
+					more, esc2 := p.callSitesOf(f)
+					for _, e := range esc2 {
+						r.Fail("R1", "tryLock-escapes", e.Pos(), "%s is used as a function value", fname(f))
+					}
+					calls = append(calls, more...)
+					continue
+				}
+			}
+		}
 		if len(exits) > 0 && relPkg(f) == "tracker" && f.Parent() == nil && f.Signature.Results().Len() == 1 && isBoolType(f.Signature.Results().At(0).Type()) {
 			if obj, isF := f.Object().(*types.Func); isF && !obj.Exported() {
 				allTrue := true
@@ -149,10 +221,7 @@ func runC15(r *Report) {
 			}
 			nU++
 			r.Fn(f)
-			held := p.factHolds(in, func(g Guard) bool {
-				gc, okc := g.Cond.(*ssa.Call)
-				return okc && acquirers[gc.Call.StaticCallee()] && g.Pol
-			}, 0)
+			held := p.factHolds(in, heldGuard, 0)
 			r.Check(held, "R1", fname(f)+"/unlock-only-when-held", cs.Pos(), "the unlock is reached (or registered) only on the edge on which the flag was taken",
 				"unlock is called or deferred on a path on which tryLock may have failed: an announce that was refused because another one is in flight releases that one's flag — GetState reports the tracker idle while it is being contacted, a second contact can start, and the rightful owner's unlock panics (\"unlocking unlocked torrent\") in its goroutine")
 		}
@@ -174,10 +243,7 @@ func runC15(r *Report) {
 					return
 				}
 				nU++
-				held := p.factHolds(in, func(g Guard) bool {
-					gc, okc := g.Cond.(*ssa.Call)
-					return okc && acquirers[gc.Call.StaticCallee()] && g.Pol
-				}, 0)
+				held := p.factHolds(in, heldGuard, 0)
 				r.Check(held, "R1", fname(f)+"/unlock-only-when-held", d.Pos(), "the deferred unlock is registered only on the edge on which the flag was taken", "a closure that unlocks is deferred on a path on which tryLock may have failed")
 			})
 		}
